@@ -35,6 +35,28 @@ func fuzzSeeds() []string {
 		"a/b;x=\"q=0.1, c/d;q=1\", c/d;q=0.5", "a/b ; charset=utf-8 ; q=0.5 ; ext , c/d;q=.7", "text/*;q=0.3, text/plain;q=0.7, */*;q=0.1",
 		"gzip;q=1.0, identity; q=0.5, *;q=0", "br;q=0."+repeat("0", 400), "a/b;q=1."+repeat("0", 400), "a/b;x=\"\\\\\\\"\";q=0.2",
 	)
+	// renderings of structured headers (the shapes the structured generator draws)
+	samples := [][]Range{
+		{{Type: "text", Sub: "plain", Params: []Param{{N: "xq", V: "0.1"}, {N: "v", V: quote("a,b;q=0")}}, HasQ: true, Q: QV{Milli: 500, Pad: 17}, Ext: []Param{{N: "ext", Flag: true}, {N: "mq", V: "1"}}, WS: []string{"", "", " ", "\t", "", " "}},
+			{Type: "text", Sub: "*", HasQ: true, Q: QV{Name: "Q", Milli: 500, NoLead: true}, WS: []string{" ", " "}},
+			{Type: "*", Sub: "*", HasQ: true, Q: QV{Milli: 1, Gap: 3, Tail: repeat("9", 70)}, NL: true}},
+		{{Type: "application", Sub: "x-y.z+json", Params: []Param{{N: "freq", V: quote("q=1\\\"")}}},
+			{Type: "a", Sub: "b", HasQ: true, Q: QV{Milli: 0, Dot: true}, Ext: []Param{{N: "x", V: quote(", */*;q=1")}}, WS: []string{"", " "}},
+			{Type: "ab", Sub: "*", HasQ: true, Q: QV{Milli: 1000, Pad: 400}, WS: []string{"\t", ""}}},
+		{{Type: "gzip", HasQ: true, Q: QV{Milli: 999, Pad: 16}}, {Type: "*", HasQ: true, Q: QV{Milli: 0, Pad: 80}, WS: []string{"", " "}}, {Type: "br", NL: true}},
+	}
+	for _, rs := range samples {
+		ls := Lines(rs)
+		seeds = append(seeds, ls...)
+		j := ""
+		for i, l := range ls {
+			if i > 0 {
+				j += ", "
+			}
+			j += l
+		}
+		seeds = append(seeds, j)
+	}
 	return seeds
 }
 
